@@ -657,6 +657,29 @@ def r0_allocated_view(program, rep):
                    "it reach beyond (or stop short of) the allocated block")
 
 
+def r5_exit_closes(program, rep):
+    """Leaving a ``with`` block closes the view whichever way the block was
+    left: a view left open after an exception keeps reaching the machine."""
+    ex = program.get(CLS + ".__exit__")
+    fl = Flow(ex)
+    cfg = fl.cfg
+    closes = [c for c in calls_in(ex, "close") if chain(c.func.value) ==
+              formals(ex)[0]]
+    if not closes:
+        raise AnalysisError("SlicedMemoryIO.__exit__: no call of "
+                            "self.close() found (closed some other way?)")
+    nodes = [cfg.node_containing(c) for c in closes]
+    ok = cfg.must_pass(cfg.entry, lambda n: n in nodes,
+                       targets=[cfg.exit])
+    rep.check(ok, "C13-R5", qual(ex), "__exit__ closes the view on every "
+              "path (also when the block was left by an exception)",
+              construct="exit closes", node=ex,
+              fail="__exit__ does not call close() on every path (e.g. only "
+                   "when no exception is in flight): a view whose block "
+                   "failed stays usable and still reads and writes the "
+                   "machine")
+
+
 def check(program, rep):
     program.module(MOD)
     program.get(CLS + ".address")
@@ -693,6 +716,7 @@ def check(program, rep):
         rep.guard("C13-R3", r3_seek, program, rep, inline)
     rep.guard("C13-R0", r0_allocated_view, program, rep)
     rep.guard("C13-R5", r5_guards, program, rep)
+    rep.guard("C13-R5", r5_exit_closes, program, rep)
     rep.guard("C13-R6", r6_truncation_warning, program, rep)
     rep.assume("distinct local names are not aliases of one mutable object")
     rep.assume("_start_address/_end_address are only written by __init__ "
